@@ -1,5 +1,7 @@
 package main
 
+import "verif/engine/sym"
+
 func init() {
 	register(&Spec{
 		ID:       "C19",
@@ -36,16 +38,22 @@ func init() {
 					}
 				}
 			}
+			for _, c := range [][3]int64{{1, 0, 2}, {2, 0, 2}, {1, 1, 2}, {0, 1, 5}, {2, 1, 2}} {
+				jobs = append(jobs, Job{Pkg: "root", Func: "verifC19DNS", Args: []int64{c[0], c[1], c[2]}})
+			}
 			return jobs
 		},
-		Setup:        setupTables,
+		Setup: func(e *sym.Engine, st *sym.State, l *sym.Loaded) {
+			setupDNS(e, st, l)
+			e.Redirects[qRetrieveNet] = l.Pkgs[modPath].Func("verifRetrieveNetworkRuleAny")
+		},
 		AbstractHash: true,
-		MustReach:    []string{"c19.retrieval", "c19.inmemory", "c19.cached", "c19.failed", "c19.afterclose"},
+		MustReach:    []string{"c19.retrieval", "c19.inmemory", "c19.cached", "c19.failed", "c19.afterclose", "c19.dns"},
 		Bounds: map[string]string{
-			"quick":    "tables: 1..2 rules (shapes as C01), URL of 5..6 symbolic bytes, every storage retrieval during the query may fail independently (symbolic fault bit per call); storage: 1..3 retrievals of two indexes from a list that may fail at every call",
+			"quick":    "tables: 1..2 rules (shapes as C01), URL of 5..6 symbolic bytes, every storage retrieval during the query may fail independently (symbolic fault bit per call); DNS engine: 1..3 rules, every host-rule and network-rule retrieval may fail; storage: 1..3 retrievals of two indexes from a list that may fail at every call",
 			"thorough": "URLs of 4..7 bytes; storage sequences up to 5 retrievals",
 		},
-		Outside:     []string{"the operating-system behaviour of a closed file descriptor (FileRuleList with failing Seek/Read is exercised in C11's file model)", "the DNS engine's host-rule path (C02 harness)", "more than 2 rules per request"},
+		Outside:     []string{"the operating-system behaviour of a closed file descriptor (FileRuleList with failing Seek/Read is exercised in C11's file model)", "more than 2 rules per request"},
 		Assumptions: []string{"a failing list makes RuleStorage.RetrieveNetworkRule return nil (checked on the real RetrieveRule in the storage harness)"},
 		Rule:        "fault schedule = one symbolic Boolean per retrieval; one state per feasible path",
 	})
